@@ -1,6 +1,7 @@
 import ArcaModel.Model.Compat
 import ArcaModel.Lemmas.Out
 import ArcaModel.Model.WF
+import ArcaModel.Lemmas.CompatHalts
 /-
   C15  Compatibility checking is kind-sound, reflexive and independent of iteration order.
 
@@ -409,9 +410,160 @@ example : SelfOK (.obj "A" [("xs", .mk (.list (.int (some 0) (some 9) none) (som
   · exact .list (by decide) (.int (by decide))
   · exact .map (by decide) (.str (by decide)) .enumStr
 
+/-- The same with references and scopes: `SelfOKe env t n` - the schema, read in the environment
+    `env`, unfolds through its references to nesting depth at most `n` (so its reference graph is
+    acyclic), ranges are non-empty and tables have distinct keys. -/
+inductive SelfOKe : Env → Ty → Nat → Prop
+  | int {env a b u n} : rangeDisjoint a b a b = false → SelfOKe env (.int a b u) n
+  | float {env a b u n} : fRangeDisjoint a b a b = false → SelfOKe env (.float a b u) n
+  | str {env a b p n} : rangeDisjoint a b a b = false → SelfOKe env (.str a b p) n
+  | bool {env n} : SelfOKe env .bool n
+  | pattern {env n} : SelfOKe env .pattern n
+  | enumInt {env vs u n} : SelfOKe env (.enumInt vs u) n
+  | enumStr {env vs n} : SelfOKe env (.enumStr vs) n
+  | any {env n} : SelfOKe env .any n
+  | list {env item a b n} : rangeDisjoint a b a b = false → SelfOKe env item n → SelfOKe env (.list item a b) (n + 1)
+  | map {env k v a b n} : rangeDisjoint a b a b = false → SelfOKe env k n → SelfOKe env v n → SelfOKe env (.map k v a b) (n + 1)
+  | obj {env id props n} : (props.map Prod.fst).Nodup → (∀ np, np ∈ props → SelfOKe env np.2.ty n) →
+      SelfOKe env (.obj id props) (n + 1)
+  | oneOf {env ik d inl ms n} : (ms.map Prod.fst).Nodup → (∀ m, m ∈ ms → SelfOKe env m.2 n) →
+      SelfOKe env (.oneOf ik d inl ms) (n + 1)
+  | ref {env id o n} : lookupS id env = some o → SelfOKe env o n → SelfOKe env (.ref id) (n + 1)
+  | scope {env objs root o n} : lookupS root objs = some o → SelfOKe objs o n → SelfOKe env (.scope objs root) (n + 1)
+
+/-- Reflexivity for schemas with references: every schema whose reference graph is acyclic (and
+    whose ranges are non-empty, keys distinct) is compatible with itself, in its own environment.
+    For a reference CYCLE the statement is false of the code: `ValidateCompatibility` of such a scope
+    with itself does not terminate (known finding `recursive-scope-self-compat`). -/
+theorem C15_reflexive_acyclic {env : Env} {t : Ty} {n : Nat} (h : SelfOKe env t n) :
+    compatS (n + 1) env env t t = .ok () := by
+  induction h with
+  | int hr => simp [compatS, hr]
+  | float hr => simp [compatS, hr]
+  | str hr => simp [compatS, hr]
+  | bool => simp [compatS]
+  | pattern => simp [compatS]
+  | enumInt => simp [compatS]
+  | enumStr => simp [compatS]
+  | any => simp [compatS]
+  | list hr _ ih => rw [compatS]; simp only [hr, Bool.false_eq_true, if_false, ih]
+  | map hr _ _ ihk ihv => rw [compatS]; simp only [hr, ihk, ihv, rewrapC, Out.bind, Bool.false_eq_true, if_false]
+  | @obj env id props n hnd _ ih =>
+    rw [compatS]
+    simp only [objOf, bne_self_eq_false, Bool.false_eq_true, if_false]
+    have h1 : forAll (objPropCompat (fun a b => compatS (n + 1) env env a b) props) props = .ok () := by
+      refine forAll_ok_iff.mpr (fun kp hkp => ?_)
+      simp only [objPropCompat]
+      rw [lookupS_of_mem_nodup (k := kp.1) (v := kp.2) hkp hnd]
+      simp [ih kp hkp, addSeg]
+    have h2 : (props.any fun kp => kp.2.required && !hasKey kp.1 props) = false := by
+      cases hh : props.any fun kp => kp.2.required && !hasKey kp.1 props with
+      | false => rfl
+      | true =>
+        obtain ⟨kp, hkp, hb⟩ := List.any_eq_true.mp hh
+        have : hasKey kp.1 props = true := by
+          simp [hasKey, lookupS_of_mem_nodup (k := kp.1) (v := kp.2) hkp hnd]
+        simp [this] at hb
+    rw [h1]
+    simp [Out.bind, h2]
+  | @oneOf env ik d inl ms n hnd _ ih =>
+    rw [compatS]
+    simp only [bne_self_eq_false, Bool.false_eq_true, if_false]
+    refine forAll_ok_iff.mpr (fun km hkm => ?_)
+    simp only [oneOfMemberCompat]
+    rw [lookupK_of_mem_nodup (k := km.1) (v := km.2) hkm hnd]
+    simp [ih km hkm, rewrapC]
+  | ref hl _ ih =>
+    rw [compatS]
+    simp only [hl, ih]
+  | scope hl _ ih =>
+    rw [compatS]
+    simp only [hl, ih]
+
+def c15Objs : Env :=
+  [("A", .obj "A" [("b", .mk (.ref "B") true [] [] [] none false),
+                   ("bs", .mk (.list (.ref "B") none (some 3)) false [] [] [] none false)]),
+   ("B", .obj "B" [("n", .mk (.int (some 0) none none) true [] [] [] none false)])]
+
+/-- non-vacuity: a scope whose root refers to a second object, directly and under a list -/
+example : SelfOKe [] (.scope c15Objs "A") 5 := by
+  have hB : ∀ n, SelfOKe c15Objs (.obj "B" [("n", .mk (.int (some 0) none none) true [] [] [] none false)]) (n + 1) :=
+    fun n => .obj (by decide) (fun np hnp => by simp at hnp; subst hnp; exact .int (by decide))
+  refine .scope (o := .obj "A" _) rfl (.obj (by decide) (fun np hnp => ?_))
+  simp at hnp
+  rcases hnp with rfl | rfl
+  · exact .ref (o := .obj "B" _) rfl (hB 1)
+  · exact .list (by decide) (.ref (o := .obj "B" _) rfl (hB 0))
+
+example : (compatS 6 [] [] (.scope c15Objs "A") (.scope c15Objs "A")).isOk = true := by decide
+
+/-! ### termination -/
+
+/-- Compatibility checking terminates whenever the CONSUMER schema's reference graph is acyclic
+    (`FinDepth es s d`, decidable by `finB`), against ANY producer schema and environment - also a
+    cyclic or dangling one: every recursive step descends in the consumer. The budget is the
+    consumer's unfolding depth. For a consumer with a reference cycle compared with a producer with
+    the same cycle the code does not terminate (known finding `recursive-scope-self-compat`). -/
+theorem C15_terminates_acyclic {es : Env} {s : Ty} {d : Nat} (h : FinDepth es s d) (eo : Env) (o : Ty)
+    (n : Nat) (hn : d < n) : compatS n es eo s o ≠ .fuel :=
+  compatS_halts h n hn eo o
+
+def cycName : PropT := .mk (.str none none none) true [] [] [] none false
+def cycNext : PropT := .mk (.ref "A") false [] [] [] none false
+def cycProps : List (String × PropT) := [("name", cycName), ("next", cycNext)]
+def cycA : Ty := .obj "A" cycProps
+def cycEnv : Env := [("A", cycA)]
+
+theorem cyc_aux : ∀ n, compatS n cycEnv cycEnv cycA cycA = .fuel ∧
+    compatS n cycEnv cycEnv (.ref "A") (.ref "A") = .fuel
+  | 0 => by simp [compatS]
+  | n + 1 => by
+    obtain ⟨hP, hQ⟩ := cyc_aux n
+    refine ⟨?_, ?_⟩
+    · cases n with
+      | zero =>
+        have h1 : objPropCompat (fun a b => compatS 0 cycEnv cycEnv a b) cycProps ("name", cycName) = .fuel := rfl
+        show compatS 1 cycEnv cycEnv (.obj "A" cycProps) (.obj "A" cycProps) = .fuel
+        rw [compatS]
+        simp only [objOf, bne_self_eq_false, Bool.false_eq_true, if_false]
+        show (forAll _ [("name", cycName), ("next", cycNext)]).bind _ = .fuel
+        simp only [forAll, h1, Out.bind]
+      | succ k =>
+        have h1 : objPropCompat (fun a b => compatS (k + 1) cycEnv cycEnv a b) cycProps ("name", cycName) = .ok () := rfl
+        have h2 : objPropCompat (fun a b => compatS (k + 1) cycEnv cycEnv a b) cycProps ("next", cycNext) = .fuel := by
+          show (compatS (k + 1) cycEnv cycEnv (.ref "A") (.ref "A")).addSeg "next" = .fuel
+          rw [hQ]; rfl
+        show compatS (k + 2) cycEnv cycEnv (.obj "A" cycProps) (.obj "A" cycProps) = .fuel
+        rw [compatS]
+        simp only [objOf, bne_self_eq_false, Bool.false_eq_true, if_false]
+        show (forAll _ [("name", cycName), ("next", cycNext)]).bind _ = .fuel
+        simp only [forAll, h1, h2, Out.bind]
+    · show compatS (n + 1) cycEnv cycEnv (.ref "A") (.ref "A") = .fuel
+      rw [compatS]
+      have hl : lookupS "A" cycEnv = some cycA := rfl
+      simp only [hl]
+      exact hP
+
+/-- the recorded non-terminating shape: a scope whose object refers to itself, against itself,
+    exhausts every budget - and the real code exhausts its stack (known finding) -/
+theorem C15_cycle_hangs (n : Nat) : compatS n [] [] (.scope cycEnv "A") (.scope cycEnv "A") = .fuel := by
+  cases n with
+  | zero => simp [compatS]
+  | succ k =>
+    rw [compatS]
+    have hl : lookupS "A" cycEnv = some cycA := rfl
+    simp only [hl]
+    exact (cyc_aux k).1
+
+/-- ... and it is excluded by the hypothesis of `C15_terminates_acyclic` -/
+example : finB 50 [] (.scope cycEnv "A") = none := by decide
+
 #print axioms C15_obj_property_incompatible
 #print axioms C15_obj_property_order
 #print axioms C15_oneof_missing_member
 #print axioms C15_reflexive_partial
+#print axioms C15_reflexive_acyclic
+#print axioms C15_terminates_acyclic
+#print axioms C15_cycle_hangs
 
 end Arca
